@@ -163,7 +163,12 @@ def refresh_family(ctx, rng) -> list:
                     q["mup"] = mup
                 if rng.random() < .4:
                     q["start"] = rng.choice(["epoch", "today", "year"])
-                out.append(c18_run.Case("bbb", name, "live", q, rng.choice([38, 42]),
+                # short sessions reload once or twice, long ones five to ten times (validator sleeps until
+                # publishTime + minimumUpdatePeriod, or 2 s without the attribute)
+                dur = rng.choice([38, 46, 62, 70, 86]) if ctx.thorough else (70 if len(out) % 2 == 0 else 38)
+                if mup == "-1":
+                    dur = min(dur, 46)
+                out.append(c18_run.Case("bbb", name, "live", q, dur,
                                         rng.choice(NOW_POOL if ctx.thorough else NOW_POOL[:2])))
     return out
 
@@ -345,11 +350,20 @@ def gen_corruptions(ctx, rng, base, res, per_base: int):
     if base.mode == "live" and n_manifests >= 2:
         # the cross-refresh part of the catalogue is applied to *every* session that reloads its manifest,
         # whatever shaped that manifest (update period present or not, timeline or template, start, depth)
+        # … at the FIRST, an INTERIOR and the LAST refresh of the session, and the session is run to its end
+        # (`run_on`): the verdict is what get_errors()/has_errors() say afterwards, however many refreshes follow
+        places = [("first", 1), ("last", n_manifests - 1)]
+        if n_manifests >= 4:
+            places.append(("interior", rng.randrange(2, n_manifests - 1)))
+        for place, nth in places:
+            cross.append({"kind": "ast", "nth": nth, "seconds": rng.choice([1, -1, 2, 3, -2]), "at": place,
+                          "run_on": True, "loads": n_manifests})
+            cross.append({"kind": "mpdid", "nth": nth, "suffix": "-x", "probe": True, "at": place,
+                          "run_on": True, "loads": n_manifests})
         cross.append({"kind": "ast", "nth": rng.randrange(1, n_manifests),
-                      "seconds": rng.choice([1, -1, 2, 3, -2])})
+                      "seconds": rng.choice([1, -1, 2, 3, -2]), "at": "any", "loads": n_manifests})
         cross.append({"kind": "ast", "nth": rng.randrange(1, n_manifests),
-                      "seconds": rng.choice([3600, -86400, 60])})
-        cross.append({"kind": "mpdid", "nth": rng.randrange(1, n_manifests), "suffix": "-x", "probe": True})
+                      "seconds": rng.choice([3600, -86400, 60]), "at": "any", "loads": n_manifests})
     rng.shuffle(cands)
     # one of every kind first, then the rest
     seen, ordered = set(), []
@@ -360,7 +374,7 @@ def gen_corruptions(ctx, rng, base, res, per_base: int):
     ordered += [c for c in cands if c not in ordered]
     for c in cross + placed + ordered[:per_base]:
         out.append(c18_run.Case(base.stream, base.template, base.mode, dict(base.query), base.duration,
-                                base.now, corruption=c))
+                                base.now, corruption=c, break_on_error=not c.get("run_on", False)))
     return out
 
 
@@ -524,6 +538,53 @@ def effective_timelines(root) -> list:
                 tl = None if t is None else t.find(M._q("SegmentTimeline"))
                 out.append(None if tl is None else M.s_elems(tl))
     return out
+
+
+def report_ops(res, ch, batch, info):
+    """`vreport`: replay what the session found, step by step, through the model's bookkeeping (errors found
+    on the validator itself / in the current manifest tree; archiving at every refresh) and compare the model's
+    final report with `get_errors()` / `has_errors()` read after the session, as a user of the validator does"""
+    if not res.report_obs or res.crashed or res.timed_out:
+        return
+    names: dict = {}
+
+    def nm(i):
+        return names.setdefault(i, len(names))
+    known, ops, nhist = set(), [], 0
+    for ob in res.report_obs:
+        top_new = [i for i in ob["top"] if i not in known]
+        known.update(top_new)
+        if len(ob["hist"]) > nhist:
+            # a refresh happened: what the outgoing tree still gained before it was archived, the archiving
+            # itself, then what the new tree holds from its construction
+            late = [i for h in ob["hist"][nhist:] for i in h if i not in known]
+            known.update(late)
+            if top_new or late:
+                ops.append("F" + (",".join(str(nm(i)) for i in top_new) or "-") + "/" +
+                           (",".join(str(nm(i)) for i in late) or "-"))
+            ops += ["R"] * (len(ob["hist"]) - nhist)
+            nhist = len(ob["hist"])
+            top_new = []
+        tree_new = [i for i in ob["tree"] if i not in known]
+        known.update(tree_new)
+        if top_new or tree_new:
+            ops.append("F" + (",".join(str(nm(i)) for i in top_new) or "-") + "/" +
+                       (",".join(str(nm(i)) for i in tree_new) or "-"))
+    final = sorted(nm(i) for i in res.final_ids)
+    expect = f"{M.b(res.final_has_errors)} " + (",".join(map(str, final)) or "-")
+    batch.add(ch, "vreport " + (" ".join(ops) or "R"), expect if ops else expect,
+              {**info, "refreshes": nhist, "what": "final report"},
+              canon=lambda s: s.split(" ")[0] + " " + (",".join(map(str, sorted(int(x) for x in s.split(" ")[1].split(",")))) if s.split(" ")[1] != "-" else "-"))
+    ch.count(f"refreshes:{min(nhist, 9)}")
+    ch.count("errors-found:" + ("none" if not names else "some"))
+    if names and nhist:
+        # position of the first finding relative to the refreshes that follow it
+        first = next(i for i, o in enumerate(ops) if o.startswith("F"))
+        after = sum(1 for o in ops[first:] if o == "R")
+        ch.count(f"refreshes-after-first-finding:{min(after, 6)}")
+        ch.nontrivial.add((info["case"]["template"], json.dumps(info["case"]["query"], sort_keys=True),
+                           json.dumps(info["case"]["corruption"], sort_keys=True), info["case"]["duration"],
+                           info["case"]["now"], info["case"]["break_on_error"]))
 
 
 def init_loads(data: bytes) -> bool:
@@ -783,6 +844,8 @@ def correspond(case, res, chs, batch: Batch):
             chs["vrefresh"].count(f"kind:{k}:mup-" + ("absent" if rc["mup_us"] is None else "present"))
         chs["vrefresh"].nontrivial.add((cfg, case.key()))
         model_err["n"] += sum(1 for k in real if not k.startswith("other:"))
+    # ---- vreport: the final report is the accumulation of everything found on the way
+    report_ops(res, chs["vreport"], batch, info)
     # ---- verdict level: errors / no errors.  The sub-channels compare every modelled error; what is left
     # is a session whose only errors are of kinds the model does not know (the model says "no errors")
     if res.errors and model_err["n"] == 0 and not res.crashed:
@@ -933,6 +996,11 @@ RULES = {
              "boundaries – over the served bytes and bytes patched to decode time 0 / small and sequence number "
              "0 / 1; real validate_segment error kinds in order vs the model; distinct by (session, "
              "representation, segment, variant)",
+    "vreport": "every session: the errors found step by step (on the validator itself / in the manifest tree of "
+               "the moment; archiving at every refresh) replayed through the model's bookkeeping vs get_errors() and "
+               "has_errors() read after the session; sessions with 0..9+ refreshes, corruptions at the first, an "
+               "interior and the last refresh, stopped at the first failing pass or run to the end; non-trivial = "
+               "at least one finding and one refresh; distinct by full case",
     "vtl": "SegmentTimeline S elements (read with lxml) vs the validator's expanded (start, duration) list; "
            "non-trivial = at least two S elements",
     "vgen": "expectations generated at load: timeline mode (sequence number, decode time, duration, tolerance per "
@@ -965,6 +1033,9 @@ def run_sessions(app, cases, chs, batch, limit_s=None):
             run.count(f"not-applicable:{label}")
             continue
         run.count(f"{case.mode}:{label}")
+        if c is not None and "at" in c:
+            run.count(f"refresh-position:{c['kind']}:{c['at']}:" + ("long" if c.get("loads", 0) >= 6 else "short")
+                      + (":run-to-end" if not case.break_on_error else ":stop-at-error"))
         if c is not None and "place" in c:
             run.count(f"placement:{c['kind']}:{c['place']}:{case.mode}:{addressing(case)}")
         run.count(f"template:{case.template}")
@@ -1024,8 +1095,18 @@ def channels(ctx):
                 rest.append(c)
             continue
         if c.corruption["kind"] in ("ast", "mpdid"):
-            # every cross-refresh corruption on every shape of manifest update announcement
-            k += (c.query.get("mup", "default"), bool(c.query.get("timeline")), c.template)
+            # every cross-refresh corruption on every shape of manifest update announcement, at every position
+            # among the refreshes, in short and in long (>= 5 refreshes) sessions
+            k += (c.query.get("mup", "default"), c.corruption.get("at"), c.corruption.get("loads", 0) >= 6)
+            if c.corruption.get("at") == "any":
+                k += (bool(c.query.get("timeline")), c.template)
+            limit = 1 if not ctx.thorough else 10 ** 6
+            if seen.get(k, 0) < limit:
+                seen[k] = seen.get(k, 0) + 1
+                kinds_first.insert(0, c)
+            else:
+                rest.append(c)
+            continue
         if seen.get(k, 0) < (4 if not ctx.thorough else 10 ** 6):
             seen[k] = seen.get(k, 0) + 1
             kinds_first.append(c)
@@ -1036,7 +1117,7 @@ def channels(ctx):
     batch.run()
     run = chs["validator_run"]
     # verdict-level correspondence: a disagreement in any sub-channel is a verdict disagreement of its session
-    for name in ("vrep", "vseg", "vsegx", "vtl", "vgen", "vinit", "vmpd", "vrefresh"):
+    for name in ("vrep", "vseg", "vsegx", "vtl", "vgen", "vinit", "vmpd", "vrefresh", "vreport"):
         yield chs[name]
     yield run
 
